@@ -409,32 +409,29 @@ def r3(p, rep):
 
 def r4(p, rep):
     rep.rule("C16.R4", "generated code is executed in a namespace created for that compilation only", "T-EFF (exec namespace ownership)", floor=1)
-    m = p.module("tracer.compiler.python")
-    n_exec = 0
-    for f in p.funcs.values():
-        if f.module is not m:
+    from . import c04
+
+    f, g, ex, ev, mapping = c04.exec_site(p)
+    for c in [x for x in (ex, ev) if x is not None]:
+        if len(c.args) < 2:
+            rep.violation("C16.R4", f"{f.qualname}:{c.func.id}:namespace", f"{g.module.rel}:{c.lineno}", f"{c.func.id}() runs in the compiler module's own globals")
             continue
-        for n in walk_no_nested(f.node):
-            if isinstance(n, ast.Call) and isinstance(n.func, ast.Name) and n.func.id in ("exec", "eval") and len(n.args) >= 2:
-                n_exec += 1
-                ns = n.args[1]
-                key = f"{f.qualname}:{n.func.id}:namespace"
-                site = f"{m.rel}:{n.lineno}"
-                if not isinstance(ns, ast.Name):
-                    rep.add("C16.R4", key, site, isinstance(ns, ast.Dict), f"namespace expression {norm(ns)}")
-                    continue
-                local = ns.id in p.local_names(f.node)
-                assigns = [a for a in walk_no_nested(f.node) if isinstance(a, ast.Assign) and any(isinstance(t, ast.Name) and t.id == ns.id for t in a.targets)]
-                fresh = bool(assigns) and all(isinstance(a.value, (ast.Dict, ast.DictComp)) or (isinstance(a.value, ast.Call) and isinstance(a.value.func, ast.Name) and a.value.func.id == "dict") for a in assigns)
-                rep.add(
-                    "C16.R4",
-                    key,
-                    site,
-                    local and fresh,
-                    f"{n.func.id}() namespace `{ns.id}` is a dict created inside {f.name} for this compilation" if local and fresh else f"{n.func.id}() namespace `{ns.id}` is not a fresh local dict: constants (const1, ...) of later compilations overwrite those of earlier compiled functions",
-                )
-    if n_exec == 0:
-        raise AnalysisError("anchor vanished: no exec()/eval() with an explicit namespace in tracer/compiler/python")
+        ns = c.args[1]
+        key = f"{f.qualname}:{c.func.id}:namespace"
+        site = f"{g.module.rel}:{c.lineno}"
+        if not isinstance(ns, ast.Name):
+            rep.add("C16.R4", key, site, isinstance(ns, ast.Dict), f"namespace expression {norm(ns)}")
+            continue
+        local = ns.id in p.local_names(g.node) and ns.id not in g.params
+        assigns = [a for a in walk_no_nested(g.node) if isinstance(a, ast.Assign) and any(isinstance(t, ast.Name) and t.id == ns.id for t in a.targets)]
+        fresh = bool(assigns) and all(isinstance(a.value, (ast.Dict, ast.DictComp)) or (isinstance(a.value, ast.Call) and isinstance(a.value.func, ast.Name) and a.value.func.id == "dict") for a in assigns)
+        rep.add(
+            "C16.R4",
+            key,
+            site,
+            local and fresh,
+            f"{c.func.id}() namespace `{ns.id}` is a dict created inside {g.name} for this compilation" if local and fresh else f"{c.func.id}() namespace `{ns.id}` is not a fresh local dict: constants (const1, ...) of later compilations overwrite those of earlier compiled functions",
+        )
 
 
 def run(p, rep, tier):
